@@ -25,9 +25,12 @@ def AtToken (σ : PState) (pos : Nat) : Prop := ∃ k, k ≤ σ.toks.length ∧ 
 /-- `σ'` is `σ` with some tokens dropped from the front -/
 def Drops (σ σ' : PState) : Prop := ∃ pre, σ.toks = pre ++ σ'.toks ∧ σ'.eofPos = σ.eofPos
 
+/-- what a syntax error raised from `σ` satisfies: it blames a token ahead, and `left` counts tokens still there -/
+def ErrOK (σ : PState) (pos left : Nat) : Prop := AtToken σ pos ∧ left ≤ σ.toks.length
+
 class ErrAt {α} (m : P α) : Prop where
   ok : ∀ σ a σ', m σ = .ok (a, σ') → Drops σ σ'
-  err : ∀ σ pos b, m σ = .error (.syntax pos b) → AtToken σ pos
+  err : ∀ σ pos b l, m σ = .error (.syntax pos b l) → ErrOK σ pos l
 
 theorem Drops.refl (σ : PState) : Drops σ σ := ⟨[], rfl, rfl⟩
 
@@ -45,6 +48,17 @@ theorem AtToken.of_drops {a b : PState} {pos : Nat} (h : Drops a b) (hp : AtToke
   have : (pre ++ b.toks).drop (pre.length + k) = b.toks.drop k := by
     rw [← List.drop_drop]; simp
   rw [this]
+
+theorem ErrOK.of_drops {a b : PState} {pos l : Nat} (h : Drops a b) (hp : ErrOK b pos l) : ErrOK a pos l := by
+  refine ⟨AtToken.of_drops h hp.1, ?_⟩
+  obtain ⟨pre, e1, _⟩ := h
+  have := hp.2
+  rw [e1]; simp; omega
+
+theorem errOK_cur (σ : PState) : ErrOK σ σ.cur.start σ.toks.length := ⟨by
+  refine ⟨0, Nat.zero_le _, ?_⟩
+  unfold posAt PState.cur
+  cases σ.toks <;> simp [eofToken], Nat.le_refl _⟩
 
 theorem atToken_cur (σ : PState) : AtToken σ σ.cur.start := by
   refine ⟨0, Nat.zero_le _, ?_⟩
@@ -71,32 +85,32 @@ theorem drops_adv (σ : PState) : Drops σ σ.adv := by
 /-! ### combinators and primitives -/
 
 instance {α} (a : α) : ErrAt (pure a : P α) :=
-  ⟨fun σ b σ' h => by obtain ⟨_, rfl⟩ := pure_ok.mp h; exact .refl _, fun σ pos b h => by simp at h⟩
+  ⟨fun σ b σ' h => by obtain ⟨_, rfl⟩ := pure_ok.mp h; exact .refl _, fun σ pos b l h => by simp at h⟩
 
 instance ErrAt.bind {α β} {m : P α} {f : α → P β} [hm : ErrAt m] [hf : ∀ a, ErrAt (f a)] : ErrAt (m >>= f) :=
   ⟨fun σ b σ' h => by
       obtain ⟨a, σ1, h1, h2⟩ := bind_ok.mp h
       exact (hm.ok _ _ _ h1).trans ((hf a).ok _ _ _ h2),
-   fun σ pos b h => by
+   fun σ pos b l h => by
       rcases bind_error.mp h with h1 | ⟨a, σ1, h1, h2⟩
-      · exact hm.err _ _ _ h1
-      · exact .of_drops (hm.ok _ _ _ h1) ((hf a).err _ _ _ h2)⟩
+      · exact hm.err _ _ _ _ h1
+      · exact .of_drops (hm.ok _ _ _ h1) ((hf a).err _ _ _ _ h2)⟩
 
 instance {α} {c : Prop} [Decidable c] {a b : P α} [ErrAt a] [ErrAt b] : ErrAt (if c then a else b) := by
   split <;> infer_instance
 
-instance : ErrAt cur := ⟨fun σ a σ' h => by simp at h; rw [← h.2]; exact .refl _, fun σ pos b h => by simp at h⟩
-instance : ErrAt advance := ⟨fun σ a σ' h => by simp at h; rw [← h]; exact drops_adv σ, fun σ pos b h => by simp at h⟩
+instance : ErrAt cur := ⟨fun σ a σ' h => by simp at h; rw [← h.2]; exact .refl _, fun σ pos b l h => by simp at h⟩
+instance : ErrAt advance := ⟨fun σ a σ' h => by simp at h; rw [← h]; exact drops_adv σ, fun σ pos b l h => by simp at h⟩
 instance : ErrAt flagBad :=
-  ⟨fun σ a σ' h => by simp at h; rw [← h]; exact ⟨[], rfl, rfl⟩, fun σ pos b h => by simp at h⟩
-instance (s : Nat) : ErrAt (loc s) := ⟨fun σ a σ' h => by simp at h; rw [← h.2]; exact .refl _, fun σ pos b h => by simp at h⟩
-instance : ErrAt loopFuel := ⟨fun σ a σ' h => by simp at h; rw [← h.2]; exact .refl _, fun σ pos b h => by simp at h⟩
-instance : ErrAt lookahead := ⟨fun σ a σ' h => by simp at h; rw [← h.2]; exact .refl _, fun σ pos b h => by simp at h⟩
+  ⟨fun σ a σ' h => by simp at h; rw [← h]; exact ⟨[], rfl, rfl⟩, fun σ pos b l h => by simp at h⟩
+instance (s : Nat) : ErrAt (loc s) := ⟨fun σ a σ' h => by simp at h; rw [← h.2]; exact .refl _, fun σ pos b l h => by simp at h⟩
+instance : ErrAt loopFuel := ⟨fun σ a σ' h => by simp at h; rw [← h.2]; exact .refl _, fun σ pos b l h => by simp at h⟩
+instance : ErrAt lookahead := ⟨fun σ a σ' h => by simp at h; rw [← h.2]; exact .refl _, fun σ pos b l h => by simp at h⟩
 instance (k : TokenKind) : ErrAt (peek k) :=
-  ⟨fun σ a σ' h => by simp at h; rw [← h.2]; exact .refl _, fun σ pos b h => by simp at h⟩
-instance {α} : ErrAt (outOfFuel : P α) := ⟨fun σ a σ' h => by simp at h, fun σ pos b h => by simp at h⟩
+  ⟨fun σ a σ' h => by simp at h; rw [← h.2]; exact .refl _, fun σ pos b l h => by simp at h⟩
+instance {α} : ErrAt (outOfFuel : P α) := ⟨fun σ a σ' h => by simp at h, fun σ pos b l h => by simp at h⟩
 instance {α} : ErrAt (unexpected : P α) :=
-  ⟨fun σ a σ' h => by simp at h, fun σ pos b h => by simp at h; rw [← h.1]; exact atToken_cur σ⟩
+  ⟨fun σ a σ' h => by simp at h, fun σ pos b l h => by simp at h; rw [← h.1, ← h.2.2]; exact errOK_cur σ⟩
 
 instance (k : TokenKind) : ErrAt (skip k) :=
   ⟨fun σ a σ' h => by
@@ -104,27 +118,27 @@ instance (k : TokenKind) : ErrAt (skip k) :=
       split at h <;> simp at h <;> rw [← h.2]
       · exact drops_adv σ
       · exact .refl _,
-   fun σ pos b h => by unfold skip at h; split at h <;> simp at h⟩
+   fun σ pos b l h => by unfold skip at h; split at h <;> simp at h⟩
 
 instance (k : TokenKind) : ErrAt (expect k) :=
   ⟨fun σ a σ' h => by
       unfold expect at h
       split at h <;> simp at h
       rw [← h.2]; exact drops_adv σ,
-   fun σ pos b h => by
+   fun σ pos b l h => by
       unfold expect at h
       split at h <;> simp at h
-      rw [← h.1]; exact atToken_cur σ⟩
+      rw [← h.1, ← h.2.2]; exact errOK_cur σ⟩
 
 instance (s : String) : ErrAt (expectKeyword s) :=
   ⟨fun σ a σ' h => by
       unfold expectKeyword at h
       split at h <;> simp at h
       rw [← h.2]; exact drops_adv σ,
-   fun σ pos b h => by
+   fun σ pos b l h => by
       unfold expectKeyword at h
       split at h <;> simp at h
-      rw [← h.1]; exact atToken_cur σ⟩
+      rw [← h.1, ← h.2.2]; exact errOK_cur σ⟩
 
 instance : ErrAt skipEOF :=
   ⟨fun σ a σ' h => by
@@ -132,7 +146,7 @@ instance : ErrAt skipEOF :=
       split at h <;> simp at h <;> rw [← h.2]
       · exact drops_adv σ
       · exact .refl _,
-   fun σ pos b h => by unfold skipEOF at h; split at h <;> simp at h⟩
+   fun σ pos b l h => by unfold skipEOF at h; split at h <;> simp at h⟩
 
 /-! ### loops -/
 
@@ -155,24 +169,24 @@ instance reverse_errAt {α} {opn close : TokenKind} {item : P α} [hi : ErrAt it
       · simp at h
       · obtain ⟨rfl, rfl⟩ := pure_ok.mp h
         exact ((inferInstance : ErrAt (expect opn)).ok _ _ _ h1).trans ((many_errAt _).ok _ _ _ hm)
-  · intro σ pos b h
+  · intro σ pos b l h
     simp only [reverse] at h
     rcases bind_error.mp h with h1 | ⟨o, σ1, h1, h2⟩
-    · exact (inferInstance : ErrAt (expect opn)).err _ _ _ h1
+    · exact (inferInstance : ErrAt (expect opn)).err _ _ _ _ h1
     · have hd := (inferInstance : ErrAt (expect opn)).ok _ _ _ h1
       refine .of_drops hd ?_
       simp only [bind_error, cur_run, Except.ok.injEq, Prod.mk.injEq, reduceCtorEq, false_or] at h2
       obtain ⟨_, _, ⟨rfl, rfl⟩, h2⟩ := h2
       split at h2
       · simp only [fail_run, Except.error.injEq, PErr.syntax.injEq] at h2
-        rw [← h2.1]; exact atToken_cur σ1
+        rw [← h2.1, ← h2.2.2]; exact errOK_cur σ1
       · simp only [bind_error, loopFuel_run, Except.ok.injEq, Prod.mk.injEq, reduceCtorEq, false_or] at h2
         obtain ⟨k, _, ⟨rfl, rfl⟩, h2⟩ := h2
         rcases h2 with h3 | ⟨nodes, σ2, _, h4⟩
-        · exact (many_errAt _).err _ _ _ h3
+        · exact (many_errAt _).err _ _ _ _ h3
         · split at h4
           · simp only [fail_run, Except.error.injEq, PErr.syntax.injEq] at h4
-            rw [← h4.1]; exact atToken_cur σ1
+            rw [← h4.1, ← h4.2.2]; exact ⟨atToken_cur σ1, by have := ((many_errAt (close := close) (item := item) _).ok _ _ _ ‹_›); obtain ⟨pre, e1, _⟩ := this; rw [e1]; simp⟩
           · simp at h4
 
 /-! ### the parser's functions -/
@@ -213,7 +227,7 @@ instance parseValueLiteral_errAt (c : Bool) : ∀ n, ErrAt (parseValueLiteral c 
     infer_instance
 
 instance (c : Bool) : ErrAt (parseValue c) :=
-  ⟨fun σ a σ' h => (parseValueLiteral_errAt c _).ok σ a σ' h, fun σ pos b h => (parseValueLiteral_errAt c _).err σ pos b h⟩
+  ⟨fun σ a σ' h => (parseValueLiteral_errAt c _).ok σ a σ' h, fun σ pos b l h => (parseValueLiteral_errAt c _).err σ pos b l h⟩
 
 instance : ErrAt parseArgument := by unfold parseArgument; infer_instance
 instance : ErrAt parseArguments := by unfold parseArguments; infer_instance
@@ -233,7 +247,7 @@ instance parseTypeFuel_errAt : ∀ n, ErrAt (parseTypeFuel n) := by
   | zero => unfold parseTypeFuel; infer_instance
   | succ n ih => unfold parseTypeFuel; infer_instance
 instance : ErrAt parseTypeOpt :=
-  ⟨fun σ a σ' h => (parseTypeFuel_errAt _).ok σ a σ' h, fun σ pos b h => (parseTypeFuel_errAt _).err σ pos b h⟩
+  ⟨fun σ a σ' h => (parseTypeFuel_errAt _).ok σ a σ' h, fun σ pos b l h => (parseTypeFuel_errAt _).err σ pos b l h⟩
 instance : ErrAt parseType := by unfold parseType; infer_instance
 
 instance : ErrAt parseFragmentName := by unfold parseFragmentName; infer_instance
@@ -251,7 +265,7 @@ instance parseSelectionSetFuel_errAt : ∀ n, ErrAt (parseSelectionSetFuel n) :=
   | zero => unfold parseSelectionSetFuel; infer_instance
   | succ n ih => unfold parseSelectionSetFuel; infer_instance
 instance : ErrAt parseSelectionSet :=
-  ⟨fun σ a σ' h => (parseSelectionSetFuel_errAt _).ok σ a σ' h, fun σ pos b h => (parseSelectionSetFuel_errAt _).err σ pos b h⟩
+  ⟨fun σ a σ' h => (parseSelectionSetFuel_errAt _).ok σ a σ' h, fun σ pos b l h => (parseSelectionSetFuel_errAt _).err σ pos b l h⟩
 
 instance : ErrAt parseOperationType := by
   constructor
@@ -269,14 +283,14 @@ instance : ErrAt parseOperationType := by
           · exact (pure_ok.mp h2).2.symm
           · exact (pure_ok.mp h2).2.symm
       rw [this]; exact hd
-  · intro σ pos b h
+  · intro σ pos b l h
     simp only [parseOperationType, bind_error, cur_run, Except.ok.injEq, Prod.mk.injEq, reduceCtorEq, false_or] at h
     obtain ⟨_, _, ⟨rfl, rfl⟩, h⟩ := h
     split at h
     · simp only [fail_run, Except.error.injEq, PErr.syntax.injEq] at h
-      rw [← h.1]; exact atToken_cur σ
+      rw [← h.1, ← h.2.2]; exact errOK_cur σ
     · rcases bind_error.mp h with h1 | ⟨t, σ1, h1, h2⟩
-      · exact (inferInstance : ErrAt (expect .name)).err _ _ _ h1
+      · exact (inferInstance : ErrAt (expect .name)).err _ _ _ _ h1
       · split at h2
         · simp at h2
         · split at h2 <;> simp at h2
@@ -315,66 +329,66 @@ instance : ErrAt parseDirectiveDefinition := by unfold parseDirectiveDefinition;
 
 /-- `fail p` where `p` is the start of a token ahead -/
 theorem fail_errAt {α} (σ : PState) (p : Nat) (hp : AtToken σ p) :
-    (∀ a σ', (fail p : P α) σ = .ok (a, σ') → Drops σ σ') ∧ (∀ pos b, (fail p : P α) σ = .error (.syntax pos b) → AtToken σ pos) :=
-  ⟨fun a σ' h => by simp at h, fun pos b h => by simp at h; rw [← h.1]; exact hp⟩
+    (∀ a σ', (fail p : P α) σ = .ok (a, σ') → Drops σ σ') ∧ (∀ pos b l, (fail p : P α) σ = .error (.syntax pos b l) → ErrOK σ pos l) :=
+  ⟨fun a σ' h => by simp at h, fun pos b l h => by simp at h; rw [← h.1, ← h.2.2]; exact ⟨hp, Nat.le_refl _⟩⟩
 
 theorem dispatch_errAt (kw : Token) (σ : PState) (hkw : AtToken σ kw.start) :
     (∀ a σ', dispatchKeyword kw σ = .ok (a, σ') → Drops σ σ') ∧
-      (∀ pos b, dispatchKeyword kw σ = .error (.syntax pos b) → AtToken σ pos) := by
+      (∀ pos b l, dispatchKeyword kw σ = .error (.syntax pos b l) → ErrOK σ pos l) := by
   unfold dispatchKeyword
   by_cases h0 : kw.kind ≠ .name
   · rw [if_pos h0]; exact fail_errAt σ _ hkw
   rw [if_neg h0]
   by_cases c0 : kw.value = "fragment"
   · rw [if_pos c0]
-    exact ⟨fun a σ' h => (inferInstance : ErrAt parseFragmentDefinition).ok σ a σ' h, fun pos b h => (inferInstance : ErrAt parseFragmentDefinition).err σ pos b h⟩
+    exact ⟨fun a σ' h => (inferInstance : ErrAt parseFragmentDefinition).ok σ a σ' h, fun pos b l h => (inferInstance : ErrAt parseFragmentDefinition).err σ pos b l h⟩
   rw [if_neg c0]
   by_cases c1 : kw.value = "query" ∨ kw.value = "mutation" ∨ kw.value = "subscription"
   · rw [if_pos c1]
-    exact ⟨fun a σ' h => (inferInstance : ErrAt parseOperationDefinition).ok σ a σ' h, fun pos b h => (inferInstance : ErrAt parseOperationDefinition).err σ pos b h⟩
+    exact ⟨fun a σ' h => (inferInstance : ErrAt parseOperationDefinition).ok σ a σ' h, fun pos b l h => (inferInstance : ErrAt parseOperationDefinition).err σ pos b l h⟩
   rw [if_neg c1]
   by_cases c2 : kw.value = "schema"
   · rw [if_pos c2]
-    exact ⟨fun a σ' h => (inferInstance : ErrAt parseSchemaDefinition).ok σ a σ' h, fun pos b h => (inferInstance : ErrAt parseSchemaDefinition).err σ pos b h⟩
+    exact ⟨fun a σ' h => (inferInstance : ErrAt parseSchemaDefinition).ok σ a σ' h, fun pos b l h => (inferInstance : ErrAt parseSchemaDefinition).err σ pos b l h⟩
   rw [if_neg c2]
   by_cases c3 : kw.value = "scalar"
   · rw [if_pos c3]
-    exact ⟨fun a σ' h => (inferInstance : ErrAt parseScalarTypeDefinition).ok σ a σ' h, fun pos b h => (inferInstance : ErrAt parseScalarTypeDefinition).err σ pos b h⟩
+    exact ⟨fun a σ' h => (inferInstance : ErrAt parseScalarTypeDefinition).ok σ a σ' h, fun pos b l h => (inferInstance : ErrAt parseScalarTypeDefinition).err σ pos b l h⟩
   rw [if_neg c3]
   by_cases c4 : kw.value = "type"
   · rw [if_pos c4]
-    exact ⟨fun a σ' h => (inferInstance : ErrAt parseObjectTypeDefinition).ok σ a σ' h, fun pos b h => (inferInstance : ErrAt parseObjectTypeDefinition).err σ pos b h⟩
+    exact ⟨fun a σ' h => (inferInstance : ErrAt parseObjectTypeDefinition).ok σ a σ' h, fun pos b l h => (inferInstance : ErrAt parseObjectTypeDefinition).err σ pos b l h⟩
   rw [if_neg c4]
   by_cases c5 : kw.value = "interface"
   · rw [if_pos c5]
-    exact ⟨fun a σ' h => (inferInstance : ErrAt parseInterfaceTypeDefinition).ok σ a σ' h, fun pos b h => (inferInstance : ErrAt parseInterfaceTypeDefinition).err σ pos b h⟩
+    exact ⟨fun a σ' h => (inferInstance : ErrAt parseInterfaceTypeDefinition).ok σ a σ' h, fun pos b l h => (inferInstance : ErrAt parseInterfaceTypeDefinition).err σ pos b l h⟩
   rw [if_neg c5]
   by_cases c6 : kw.value = "union"
   · rw [if_pos c6]
-    exact ⟨fun a σ' h => (inferInstance : ErrAt parseUnionTypeDefinition).ok σ a σ' h, fun pos b h => (inferInstance : ErrAt parseUnionTypeDefinition).err σ pos b h⟩
+    exact ⟨fun a σ' h => (inferInstance : ErrAt parseUnionTypeDefinition).ok σ a σ' h, fun pos b l h => (inferInstance : ErrAt parseUnionTypeDefinition).err σ pos b l h⟩
   rw [if_neg c6]
   by_cases c7 : kw.value = "enum"
   · rw [if_pos c7]
-    exact ⟨fun a σ' h => (inferInstance : ErrAt parseEnumTypeDefinition).ok σ a σ' h, fun pos b h => (inferInstance : ErrAt parseEnumTypeDefinition).err σ pos b h⟩
+    exact ⟨fun a σ' h => (inferInstance : ErrAt parseEnumTypeDefinition).ok σ a σ' h, fun pos b l h => (inferInstance : ErrAt parseEnumTypeDefinition).err σ pos b l h⟩
   rw [if_neg c7]
   by_cases c8 : kw.value = "input"
   · rw [if_pos c8]
-    exact ⟨fun a σ' h => (inferInstance : ErrAt parseInputObjectTypeDefinition).ok σ a σ' h, fun pos b h => (inferInstance : ErrAt parseInputObjectTypeDefinition).err σ pos b h⟩
+    exact ⟨fun a σ' h => (inferInstance : ErrAt parseInputObjectTypeDefinition).ok σ a σ' h, fun pos b l h => (inferInstance : ErrAt parseInputObjectTypeDefinition).err σ pos b l h⟩
   rw [if_neg c8]
   by_cases c9 : kw.value = "extend"
   · rw [if_pos c9]
-    exact ⟨fun a σ' h => (inferInstance : ErrAt parseTypeExtensionDefinition).ok σ a σ' h, fun pos b h => (inferInstance : ErrAt parseTypeExtensionDefinition).err σ pos b h⟩
+    exact ⟨fun a σ' h => (inferInstance : ErrAt parseTypeExtensionDefinition).ok σ a σ' h, fun pos b l h => (inferInstance : ErrAt parseTypeExtensionDefinition).err σ pos b l h⟩
   rw [if_neg c9]
   by_cases c10 : kw.value = "directive"
   · rw [if_pos c10]
-    exact ⟨fun a σ' h => (inferInstance : ErrAt parseDirectiveDefinition).ok σ a σ' h, fun pos b h => (inferInstance : ErrAt parseDirectiveDefinition).err σ pos b h⟩
+    exact ⟨fun a σ' h => (inferInstance : ErrAt parseDirectiveDefinition).ok σ a σ' h, fun pos b l h => (inferInstance : ErrAt parseDirectiveDefinition).err σ pos b l h⟩
   rw [if_neg c10]
   exact fail_errAt σ _ hkw
 
 /-- `keywordToken` leaves the state alone and returns the current token or the one after it -/
 theorem keywordToken_spec (σ : PState) :
     (∀ kw σ', keywordToken σ = .ok (kw, σ') → σ' = σ ∧ AtToken σ kw.start) ∧
-      (∀ pos b, keywordToken σ = .error (.syntax pos b) → AtToken σ pos) := by
+      (∀ pos b l, keywordToken σ = .error (.syntax pos b l) → ErrOK σ pos l) := by
   unfold keywordToken
   constructor
   · intro kw σ' h
@@ -394,7 +408,7 @@ theorem keywordToken_spec (σ : PState) :
         exact ⟨rfl, atToken_next σ hne⟩
     · obtain ⟨rfl, rfl⟩ := pure_ok.mp h
       exact ⟨rfl, atToken_cur σ⟩
-  · intro pos b h
+  · intro pos b l h
     simp only [bind_error, cur_run, Except.ok.injEq, Prod.mk.injEq, reduceCtorEq, false_or] at h
     obtain ⟨_, _, ⟨rfl, rfl⟩, h⟩ := h
     split at h
@@ -407,7 +421,7 @@ theorem keywordToken_spec (σ : PState) :
       obtain ⟨_, _, ⟨rfl, rfl⟩, h⟩ := h
       split at h
       · simp only [fail_run, Except.error.injEq, PErr.syntax.injEq] at h
-        rw [← h.1]; exact atToken_next σ hne
+        rw [← h.1, ← h.2.2]; exact ⟨atToken_next σ hne, Nat.le_refl _⟩
       · simp at h
     · simp at h
 
@@ -418,12 +432,12 @@ instance : ErrAt parseTypeSystemDefinition := by
     obtain ⟨kw, σ1, h1, h2⟩ := bind_ok.mp h
     obtain ⟨rfl, hkw⟩ := (keywordToken_spec σ).1 kw σ1 h1
     exact (dispatch_errAt kw σ1 hkw).1 a σ' h2
-  · intro σ pos b h
+  · intro σ pos b l h
     simp only [parseTypeSystemDefinition] at h
     rcases bind_error.mp h with h1 | ⟨kw, σ1, h1, h2⟩
-    · exact (keywordToken_spec σ).2 pos b h1
+    · exact (keywordToken_spec σ).2 pos b l h1
     · obtain ⟨rfl, hkw⟩ := (keywordToken_spec σ).1 kw σ1 h1
-      exact (dispatch_errAt kw σ1 hkw).2 pos b h2
+      exact (dispatch_errAt kw σ1 hkw).2 pos b l h2
 
 instance : ErrAt parseDefinition := by
   unfold parseDefinition
@@ -444,7 +458,7 @@ instance : ErrAt parseDocument := by unfold parseDocument; infer_instance
 
 /-- every syntax error of the whole parser is reported at the start of a token of the input, or at the EOF offset -/
 theorem parseToks_error_at_token {toks : List Token} {eofPos pos : Nat} {b : Bool}
-    (h : parseToks toks eofPos = .error (.syntax pos b)) :
+    {l : Nat} (h : parseToks toks eofPos = .error (.syntax pos b l)) :
     ∃ k, k ≤ toks.length ∧ pos = posAt (initState toks eofPos) k := by
   unfold parseToks at h
   cases hp : parseDocument (initState toks eofPos) with
@@ -452,16 +466,16 @@ theorem parseToks_error_at_token {toks : List Token} {eofPos pos : Nat} {b : Boo
   | error e =>
     simp only [hp, Except.error.injEq] at h
     subst h
-    exact (inferInstance : ErrAt parseDocument).err _ _ _ hp
+    exact ((inferInstance : ErrAt parseDocument).err _ _ _ _ hp).1
 
 /-- a type reference never reports a syntax error itself (D-03b: `parseType` has no failing path) -/
-theorem parseTypeFuel_no_syntax_error : ∀ (n : Nat) (σ : PState) (pos : Nat) (b : Bool),
-    parseTypeFuel n σ ≠ .error (.syntax pos b) := by
+theorem parseTypeFuel_no_syntax_error : ∀ (n : Nat) (σ : PState) (pos : Nat) (b : Bool) (l : Nat),
+    parseTypeFuel n σ ≠ .error (.syntax pos b l) := by
   intro n
   induction n with
-  | zero => intro σ pos b h; simp [parseTypeFuel] at h
+  | zero => intro σ pos b l h; simp [parseTypeFuel] at h
   | succ n ih =>
-    intro σ pos b h
+    intro σ pos b l h
     simp only [parseTypeFuel] at h
     rcases bind_error.mp h with h1 | ⟨tok, σ0, h1, h2⟩
     · simp at h1
@@ -474,7 +488,7 @@ theorem parseTypeFuel_no_syntax_error : ∀ (n : Nat) (σ : PState) (pos : Nat) 
           rcases bind_error.mp h3 with h5 | ⟨_, σa, h5, h6⟩
           · simp at h5
           · rcases bind_error.mp h6 with h7 | ⟨inner, σ2, _, h8⟩
-            · exact ih _ _ _ h7
+            · exact ih _ _ _ _ h7
             · rcases bind_error.mp h8 with h9 | ⟨c, σ3, h9, h10⟩
               · simp at h9
               · split at h10 <;> simp [bind_error] at h10
